@@ -574,7 +574,9 @@ func (e *schedEngine) Exec(tr *Trace, x *X) {
 		s := NewSched(x, c.Clients, sw)
 		plane.yield = s.Yield
 		setYieldHook(s.Yield)
+		setBlockHook(s.Blocked)
 		defer setYieldHook(nil)
+		defer setBlockHook(nil)
 		bodies := make([]func(), c.Clients)
 		for cl := 0; cl < c.Clients; cl++ {
 			cl := cl
@@ -590,6 +592,7 @@ func (e *schedEngine) Exec(tr *Trace, x *X) {
 		s.Run(bodies)
 		plane.yield = nil
 		setYieldHook(nil)
+		setBlockHook(nil)
 		x.Steps += s.nyield
 		x.SchedKey = s.key()
 		x.Probes["yields"] += s.nyield
